@@ -367,6 +367,160 @@ fn value_level(ctx: &Ctx) {
   ctx.subspace("value-level lazy fields: every sequence of <= 3 of the 15 day / 11 hour observers (incl. next(n) after a getter filled the lazy fields) on 10 lunar days x (day + 4 hours), each answer compared with the answer of a fresh value", true, n);
 }
 
+// ---------------------------------------------------------------------------------------------
+// Phase C: generic history explorer. Alphabet = (date, observer) requests on a grid built so that keys collide under
+// many plausible *unknown* cachings (adjacent years, December 26-31 vs January 1-6, (Y, 11|12) vs (10Y+1, 1|2),
+// same year / different month, far eras). Cold answers come from one fresh OS process per request (so that state the
+// hooks do not know about is cold too); the explorer then runs, in one process, a history that contains every ordered
+// pair of requests adjacently and compares every answer with its cold answer.
+
+pub const OBSERVERS: usize = 8;
+
+fn grid(quick: bool) -> Vec<(isize, usize, usize)> {
+  let years: Vec<isize> = if quick { vec![2, 21, 202, 1582, 2020, 2021, 2024, 9000] } else { vec![1, 2, 11, 12, 21, 202, 203, 1582, 1999, 2000, 2020, 2021, 2023, 2024, 9000, 9998] };
+  let months: Vec<usize> = if quick { vec![1, 2, 12] } else { vec![1, 2, 6, 11, 12] };
+  let days: Vec<usize> = if quick { vec![1, 6, 26] } else { vec![1, 6, 15, 26, 28] };
+  let mut v = Vec::new();
+  for &y in &years {
+    for &m in &months {
+      for &d in &days {
+        v.push((y, m, d));
+      }
+    }
+  }
+  v
+}
+
+pub fn observe(date: (isize, usize, usize), obs: usize) -> String {
+  let (y, m, d) = date;
+  let r = guard(|| {
+    let sd = SolarDay::from_ymd(y, m, d);
+    match obs {
+      0 => format!("{} doy {} week {}", sd.get_julian_day().get_day(), sd.get_index_in_year(), sd.get_week().get_index()),
+      1 => {
+        let l = sd.get_lunar_day();
+        format!("{} -> {}", l, l.get_solar_day())
+      }
+      2 => {
+        let t = sd.get_term_day();
+        format!("{} {} jd {}", t, t.get_solar_term().get_year(), t.get_solar_term().get_julian_day().get_day())
+      }
+      3 => {
+        let s = sd.get_sixty_cycle_day();
+        format!("{} duty {} star {}", s, s.get_duty(), s.get_nine_star())
+      }
+      4 => {
+        let h = SolarTime::from_ymd_hms(y, m, d, 23, 30, 0).get_lunar_hour();
+        format!("{} / {}", h.get_eight_char().get_name(), h.get_sixty_cycle_hour())
+      }
+      5 => {
+        let ly = LunarYear::from_year(y);
+        let lm = LunarMonth::from_ym(y, m as isize);
+        format!("leap {} count {} days {} next {} first {}", ly.get_leap_month(), ly.get_month_count(), ly.get_day_count(), fmt_month(&lm.next(1)), lm.get_first_julian_day().get_day())
+      }
+      6 => format!("{:?} {:?} {:?}", sd.get_festival().map(|f| f.to_string()), sd.get_lunar_day().get_festival().map(|f| f.to_string()), sd.get_legal_holiday().map(|f| f.to_string())),
+      _ => {
+        let c = ChildLimit::from_solar_time(SolarTime::from_ymd_hms(y, m, d, 1, 11, 19), Gender::WOMAN);
+        format!("{} {}", c.get_end_time(), c.get_start_decade_fortune().get_name())
+      }
+    }
+  });
+  r.unwrap_or_else(|_| "REFUSED".into())
+}
+
+/// entry point of the one-request cold process: `tyme-mc cold <quick|thorough> <request index>`
+pub fn cold_main(quick: bool, idx: usize) {
+  let g = grid(quick);
+  let date = g[idx / OBSERVERS];
+  println!("{}", observe(date, idx % OBSERVERS));
+}
+
+fn cold_answers(ctx: &Ctx, quick: bool, n: usize) -> Option<Vec<String>> {
+  let exe = std::env::current_exe().ok()?;
+  let out: std::sync::Mutex<Vec<(usize, String)>> = std::sync::Mutex::new(Vec::new());
+  let failed = std::sync::atomic::AtomicBool::new(false);
+  par_chunks_n(ctx, 16, 0, n, 1, |a, _b, _l| {
+    let r = std::process::Command::new(&exe).arg("cold").arg(if quick { "quick" } else { "thorough" }).arg(a.to_string()).env_remove("VERIF_PART").output();
+    match r {
+      Ok(o) if o.status.success() => out.lock().unwrap().push((a, String::from_utf8_lossy(&o.stdout).trim_end().to_string())),
+      _ => failed.store(true, std::sync::atomic::Ordering::Relaxed),
+    }
+  });
+  if failed.load(std::sync::atomic::Ordering::Relaxed) {
+    return None;
+  }
+  let mut v = vec![String::new(); n];
+  let got = out.into_inner().unwrap();
+  if got.len() != n {
+    return None;
+  }
+  for (i, s) in got {
+    v[i] = s;
+  }
+  Some(v)
+}
+
+fn generic_histories(ctx: &Ctx) {
+  let quick = ctx.quick();
+  let g = grid(quick);
+  let n = g.len() * OBSERVERS;
+  let cold = match cold_answers(ctx, quick, n) {
+    Some(c) => c,
+    None => {
+      ctx.note("phase C skipped: cold-answer processes could not be run".into());
+      ctx.subspace("C generic histories: skipped (cold processes unavailable)", false, 0);
+      return;
+    }
+  };
+  let mut l = Local::default();
+  let mut check = |date_i: usize, obs: usize, prev: Option<(usize, usize)>, l: &mut Local| {
+    let got = observe(g[date_i], obs);
+    l.transitions += 1;
+    let want = &cold[date_i * OBSERVERS + obs];
+    if &got != want {
+      let p = prev.map(|(pd, po)| format!("{:?}/obs{}", g[pd], po)).unwrap_or("-".into());
+      ctx.violation(
+        "generic_history",
+        format!("{:?}/obs{} after {}", g[date_i], obs, p),
+        format!("request ({:?}, observer {}) answered '{}' in a long history (directly after {}), but '{}' in a fresh process", g[date_i], obs, got, p, want),
+        vec!["generic".into(), if quick { "quick".into() } else { "thorough".into() }, date_i.to_string(), obs.to_string(), prev.map(|x| x.0.to_string()).unwrap_or("-1".into()), prev.map(|x| x.1.to_string()).unwrap_or("0".into())],
+      );
+    }
+  };
+  // (i) per observer: every ordered pair of dates adjacently
+  for obs in 0..OBSERVERS {
+    for i in 0..g.len() {
+      for j in 0..g.len() {
+        if ctx.expired() {
+          ctx.subspace("C generic histories: deadline", false, l.transitions);
+          ctx.add(&l);
+          return;
+        }
+        check(i, obs, None, &mut l);
+        check(j, obs, Some((i, obs)), &mut l);
+      }
+    }
+    l.traces += 1;
+  }
+  // (ii) across observers: every ordered pair of (date, observer) on a sub-grid
+  let sub: Vec<usize> = (0..g.len()).step_by(if quick { 6 } else { 13 }).collect();
+  for &i in &sub {
+    for oi in 0..OBSERVERS {
+      for &j in &sub {
+        for oj in 0..OBSERVERS {
+          check(i, oi, None, &mut l);
+          check(j, oj, Some((i, oi)), &mut l);
+        }
+      }
+    }
+  }
+  l.states += n as u64;
+  l.nontrivial += n as u64;
+  let t = l.transitions;
+  ctx.add(&l);
+  ctx.subspace(&format!("C generic histories: {} requests ({} dates x {} observers), cold answer of each from its own fresh OS process; one in-process history containing every ordered pair of dates adjacently for each observer, and every ordered pair of (date, observer) on a {}-date sub-grid", n, g.len(), OBSERVERS, sub.len()), true, t);
+}
+
 fn alpha_by_tag(tag: &str) -> Vec<Req> {
   match tag {
     "coreq" => core_alphabet(true),
@@ -401,6 +555,7 @@ pub fn run(ctx: &Ctx) {
   ctx.note(format!("phase B: {} memo states, {} transitions, BFS depth {}", s, t, d));
   ctx.add(&l);
   value_level(ctx);
+  generic_histories(ctx);
   ctx.sample(format!("history [from_ym(1,12) ; from_ym(11,2)] -> '{}'", {
     reset();
     let _ = answer(Kind::Month(1, 12));
@@ -434,6 +589,24 @@ pub fn replay(ctx: &Ctx, args: &[String]) {
         ctx.violation("history", hist_str(&alpha, &hist), format!("after history [{}] the request {} answers '{}' but in a fresh process state it answers '{}'", hist_str(&alpha, prefix), alpha[*last].name, got, cold), vec![]);
       }
       reset();
+    }
+    "generic" => {
+      let quick = args[1] == "quick";
+      let g = grid(quick);
+      let n: Vec<i64> = args[2..].iter().filter_map(|a| a.parse().ok()).collect();
+      let (di, ob, pd, po) = (n[0] as usize, n[1] as usize, n[2], n[3] as usize);
+      let exe = std::env::current_exe().unwrap();
+      let o = std::process::Command::new(&exe).arg("cold").arg(&args[1]).arg((di * OBSERVERS + ob).to_string()).output().unwrap();
+      let cold = String::from_utf8_lossy(&o.stdout).trim_end().to_string();
+      if pd >= 0 {
+        println!("  first  {:?} observer {} -> '{}'", g[pd as usize], po, observe(g[pd as usize], po));
+      }
+      let got = observe(g[di], ob);
+      println!("  then   {:?} observer {} -> '{}'", g[di], ob, got);
+      println!("  fresh process              -> '{}'", cold);
+      if got != cold {
+        ctx.violation("generic_history", format!("{:?}/obs{} after {}", g[di], ob, if pd >= 0 { format!("{:?}/obs{}", g[pd as usize], po) } else { "-".into() }), format!("answered '{}' after the earlier request, '{}' in a fresh process", got, cold), vec![]);
+      }
     }
     _ => value_level(ctx),
   }
